@@ -58,7 +58,8 @@ VARIABLES
     everIds,  \* ghost: every data-file id that ever existed in the directory
     nops,     \* ghost: number of client operations started
     ncrash,   \* ghost: number of crashes so far
-    mghost    \* ghost: bookkeeping for the size properties of merge (C13)
+    mghost    \* bookkeeping of merges: lastFull (ghost, for the size properties C13) and leftover, the
+              \* writer's `unsynced_merge_fileid`: the output a failed merge left behind unsynced (-1 = none)
 
 vars == <<cfg, data, hint, dsync, hsync, keydir, stats, active, written, wr, model,
           everIds, nops, ncrash, mghost>>
@@ -234,7 +235,7 @@ Init ==
     /\ everIds = {0}
     /\ nops = 0
     /\ ncrash = 0
-    /\ mghost = [lastFull |-> -1]
+    /\ mghost = [lastFull |-> -1, leftover |-> -1]
 
 -----------------------------------------------------------------------------------------
 (* File-system primitives on the disk variables *)
@@ -312,7 +313,7 @@ PublishStep ==
           /\ stats' = IF prev = NoKE THEN stats ELSE Overwrite(stats, prev.fid, prev.len)
     /\ model' = [model EXCEPT ![wr.k] = IF wr.v = Tomb THEN None ELSE wr.v]
     /\ wr' = Idle
-    /\ mghost' = [lastFull |-> -1]
+    /\ mghost' = [mghost EXCEPT !.lastFull = -1]
     /\ UNCHANGED <<cfg, data, hint, dsync, hsync, active, written, everIds, nops, ncrash>>
 
 \* the value `delete` returns is whether the keydir had the key when the tombstone was published
@@ -321,14 +322,16 @@ DelResult == wr.pc = "publish" /\ wr.op = "del" /\ keydir[wr.k] # NoKE
 -----------------------------------------------------------------------------------------
 (* merge: Writer::merge *)
 
+MergeStartRec ==
+    [pc |-> "m.create_data", op |-> "merge", sel |-> Selected, out |-> active + 1,
+     first |-> active + 1, mpos |-> 0, k |-> None, ci |-> 1,
+     size0 |-> TotalData(data),
+     full |-> \A f \in DOMAIN data : DSize(data[f]) > 0 => f \in Selected,
+     unl |-> {}]
 StartMerge ==
     /\ wr = Idle
     /\ nops' = nops + 1
-    /\ wr' = [pc |-> "m.create_data", op |-> "merge", sel |-> Selected, out |-> active + 1,
-              first |-> active + 1, mpos |-> 0, k |-> None, ci |-> 1,
-              size0 |-> TotalData(data),
-              full |-> \A f \in DOMAIN data : DSize(data[f]) > 0 => f \in Selected,
-              unl |-> {}]
+    /\ wr' = MergeStartRec
     /\ UNCHANGED <<cfg, data, hint, dsync, hsync, keydir, stats, active, written, model,
                    everIds, ncrash, mghost>>
 
@@ -438,7 +441,7 @@ MergeNewActive ==
     /\ active' = wr.out + 1
     /\ written' = 0
     /\ wr' = Idle
-    /\ mghost' = [lastFull |-> IF wr.full THEN TotalData(data) ELSE -1]
+    /\ mghost' = [mghost EXCEPT !.lastFull = IF wr.full THEN TotalData(data) ELSE -1]
     /\ UNCHANGED <<cfg, hint, hsync, keydir, stats, model, nops, ncrash>>
 
 MergeStep ==
@@ -465,7 +468,8 @@ Reopen ==
     /\ wr = Idle
     /\ nops' = nops + 1
     /\ OpenFrom(data, hint)
-    /\ UNCHANGED <<cfg, hint, hsync, wr, model, ncrash, mghost>>
+    /\ mghost' = [mghost EXCEPT !.leftover = -1]      \* the writer is a new object
+    /\ UNCHANGED <<cfg, hint, hsync, wr, model, ncrash>>
 
 \* SIGKILL between two steps: the directory keeps exactly what the issued calls did, the
 \* process state is gone, and the next incarnation opens the directory.  What the crashed
@@ -476,7 +480,7 @@ Crash ==
     /\ OpenFrom(data, hint)
     /\ wr' = Idle
     /\ model' = RecoveredMap(data, hint)
-    /\ mghost' = [lastFull |-> -1]
+    /\ mghost' = [lastFull |-> -1, leftover |-> -1]
     /\ UNCHANGED <<cfg, hint, hsync, nops>>
 
 -----------------------------------------------------------------------------------------
